@@ -19,7 +19,7 @@ from lib.proto import Relay, Conn
 from lib.kvimpl import model_event, model_filter
 
 THEOREMS_TIED = ["C05_fanout_exact", "C05_live_at_most_once", "C05_notify_effect", "C05_delivered_under_own_id",
-                 "C05_only_open_at_accept", "C05_round_complete", "C05_task_enabled", "C05_live_complete", "C05_live_sound",
+                 "C05_only_open_at_accept", "C05_round_complete", "C05_settled_fanout", "C05_task_enabled", "C05_live_complete", "C05_live_sound",
                  "C05_live_ignores_delegation", "C05_live_empty_filter"]
 
 T0 = 1700000000
